@@ -110,7 +110,11 @@ class MafWriter(object):
     def __check_column_names(column_names: List[str]) -> None:
         """The column names are written on one line, separated by the column
         separator, after the header lines: names that would not be read back
-        as they are cannot be written."""
+        as they are, or no names at all, cannot be written."""
+        if not column_names:
+            raise ValueError(
+                "A record without columns cannot give a file its column names"
+            )
         for index, name in enumerate(column_names):
             if any(char in name for char in (MafRecord.ColumnSeparator, "\r", "\n")):
                 raise ValueError(
